@@ -581,9 +581,11 @@ _cache = {}
 
 def load_dialect(src, dialect):
     """GrammarModel (+ .lexer) of one dialect; memoised per SourceSet object."""
-    key = (id(src), dialect)
-    if key in _cache and _cache[key][0] is src:
-        return _cache[key][1]
+    from .source import memo_on
+    return memo_on(src, ('grammar', dialect), lambda: _load_dialect(src, dialect))
+
+
+def _load_dialect(src, dialect):
     dc = dialect_classes(src)
     (lmod, lcls), (pmod, pcls) = dc[dialect]
     lfile = _module_of(src, lmod)
@@ -594,5 +596,4 @@ def load_dialect(src, dialect):
     lex = extract_lexer(src, lfile, lcls)
     g = extract_parser(src, pfile, pcls, lex)
     g.dialect = dialect
-    _cache[key] = (src, g)
     return g
